@@ -174,7 +174,11 @@ def r2(p, rep):
                     if any(io <= ir.derive(f.node, c)[0] for c in calls):
                         dom_ok = True
     rep.add("C15.R2", f"{f.qualname}:clash-domain", f.loc, dom_ok, "the clash test ranges over every axis name of all input and output expressions")
-    # _make_iskwarg: exactly the KEYWORD_ONLY parameters
+    # the predicate factory: exactly the KEYWORD_ONLY parameters
+    facts_ = predicate_classes(p)
+    if facts_ and not any(f_.name == "_make_iskwarg" and f_.module.name.endswith("frontend.impl._util") for f_ in p.funcs.values()):
+        _r2_class_form(p, rep, facts_)
+        return
     g = p.func("_make_iskwarg", "frontend.impl._util")
     lam = [n for n in walk_no_nested(g.node) if isinstance(n, ast.Return) and isinstance(n.value, ast.Lambda)]
     body = arg = None
@@ -234,6 +238,86 @@ def r2(p, rep):
         rep.add("C15.R2", f"{g.qualname}:var-keyword-rejected", g.loc, bool(vk), "functions with **kwargs are rejected (their option names are unknowable)")
 
 
+def predicate_classes(p):
+    """The `iskwarg` predicate written as a callable class (in frontend/impl/_util.py): `__init__(self, op)` collects
+    the keyword-only parameter names of op, `__call__(self, name)` is the membership test, a class attribute lists the
+    names the adapter supplies itself.  -> {class name: {cls, init, call, reserved (set of str) or None if not literal}}"""
+    m = p.modules.get("einx._src.frontend.impl._util")
+    out = {}
+    if m is None:
+        return out
+    for c in p.classes.values():
+        if c.module is not m:
+            continue
+        init, call = p.lookup_method(c, "__init__"), p.lookup_method(c, "__call__")
+        if init is None or call is None or "KEYWORD_ONLY" not in " ".join(norm(st) for st in init.node.body) or len(call.params) != 2:
+            continue
+        rets = [r for r in walk_no_nested(call.node) if isinstance(r, ast.Return) and r.value is not None]
+        if len(rets) != 1:
+            continue
+        from sa.cfg import decompose
+
+        conds = [common.as_positive(t, pol) for t, pol in decompose(rets[0].value, True)]
+        if any(x is None for x in conds):
+            continue
+        s0, arg = call.params
+        member = [x for x in conds if isinstance(x, ast.Compare) and isinstance(x.ops[0], ast.In) and norm(x.left) == arg and isinstance(x.comparators[0], ast.Attribute) and norm(x.comparators[0].value) == s0]
+        excl = [x for x in conds if isinstance(x, ast.Compare) and isinstance(x.ops[0], ast.NotIn) and norm(x.left) == arg and isinstance(x.comparators[0], ast.Attribute) and norm(x.comparators[0].value) == s0]
+        other = [x for x in conds if x not in member and x not in excl]
+        reserved, literal = set(), True
+        for x in excl:
+            attr = x.comparators[0].attr
+            val = None
+            for k in p.mro(c):
+                if not hasattr(k, "node"):
+                    continue
+                for st in k.node.body:
+                    if isinstance(st, ast.Assign) and any(isinstance(t, ast.Name) and t.id == attr for t in st.targets):
+                        val = st.value
+                        break
+                if val is not None:
+                    break
+            if isinstance(val, (ast.Tuple, ast.List, ast.Set)) and all(isinstance(e, ast.Constant) and isinstance(e.value, str) for e in val.elts):
+                reserved |= {e.value for e in val.elts}
+            else:
+                literal = False
+        out[c.name] = {"cls": c, "init": init, "call": call, "ret": rets[0], "member": member, "other": other, "reserved": reserved if literal else None, "excl": excl}
+    return out
+
+
+def _r2_class_form(p, rep, facts_):
+    from sa.cfg import CFG
+
+    seen_inits = set()
+    for name, inf in sorted(facts_.items()):
+        c, init, call = inf["cls"], inf["init"], inf["call"]
+        ok = len(inf["member"]) == 1 and not inf["other"]
+        rep.add("C15.R2", f"{c.qualname}:predicate", f"{c.module.rel}:{inf['ret'].lineno}", ok, f"predicate is `{norm(inf['ret'].value)}`" + ("" if ok else ": the shared predicate excludes or adds names, so for some adapter a keyword-only option is treated as an axis size (silently dropped when unused) or an axis name as an option"))
+        for x in inf["excl"]:
+            lit = inf["reserved"] is not None
+            rep.add("C15.R2", f"{c.qualname}:{x.comparators[0].attr}-is-a-collection-of-names", c.loc, lit, f"{x.comparators[0].attr} = {sorted(inf['reserved'])}" if lit else f"`{x.comparators[0].attr}` of {c.name} is not a tuple / list / set of names: `name not in ...` then is a substring test and options called 'a', 'x', 'i', 's', 'ax' ... are no longer recognised as options of the adapted function")
+        if not ok or id(init) in seen_inits:
+            continue
+        seen_inits.add(id(init))
+        attr = inf["member"][0].comparators[0].attr
+        s0 = init.params[0]
+        # self.<attr> = tuple(<list>) / <list>: the list is filled exactly under KEYWORD_ONLY
+        binds = [a.value for a in walk_no_nested(init.node) if isinstance(a, ast.Assign) and any(isinstance(t, ast.Attribute) and t.attr == attr and norm(t.value) == s0 for t in a.targets)]
+        lst = None
+        if len(binds) == 1:
+            v = binds[0]
+            if isinstance(v, ast.Call) and norm(v.func) in ("tuple", "list", "frozenset", "set") and len(v.args) == 1:
+                v = v.args[0]
+            if isinstance(v, ast.Name):
+                lst = v.id
+        cfgg = CFG(init.node)
+        appends = [n for n in walk_no_nested(init.node) if lst and isinstance(n, ast.Call) and norm(n.func) == f"{lst}.append"]
+        good = bool(appends) and all(any("KEYWORD_ONLY" in norm(t) and pol for t, pol in cfgg.guards(cfgg.node_for(a))) and not [1 for t, pol in cfgg.guards(cfgg.node_for(a)) if "KEYWORD_ONLY" not in norm(t) and "VAR_KEYWORD" not in norm(t) and "callable(" not in norm(t)] for a in appends)
+        rep.add("C15.R2", f"{init.qualname}:keyword-only", init.loc, good, f"{lst} collects exactly the parameters whose kind is KEYWORD_ONLY" if good else f"self.{attr} is not filled under `param.kind is KEYWORD_ONLY` alone")
+        vk = [r for r in walk_no_nested(init.node) if isinstance(r, ast.Raise) and any("VAR_KEYWORD" in norm(t) and pol for t, pol in cfgg.guards(cfgg.node_for(r)))]
+        rep.add("C15.R2", f"{init.qualname}:var-keyword-rejected", init.loc, bool(vk), "functions with **kwargs are rejected (their option names are unknowable)")
+
+
 def adapters(p):
     out = []
     for fw, m in backends.impl_modules(p).items():
@@ -274,6 +358,13 @@ def r3_r4(p, rep):
                     callee = norm(par.func).split(".")[-1]
                     if callee in ("_make_iskwarg", "constant", "callable"):
                         continue
+                    pc = predicate_classes(p).get(callee)
+                    if pc is not None:
+                        # the constructor only looks at the function's signature
+                        hp = pc["init"].params[1] if len(pc["init"].params) > 1 else None
+                        inner_uses = [getattr(x, "_parent", None) for x in ast.walk(pc["init"].node) if isinstance(x, ast.Name) and x.id == hp and isinstance(x.ctx, ast.Load)]
+                        if hp and all(isinstance(u, ast.Call) and norm(u.func).split(".")[-1] in ("callable", "signature", "type") and not (isinstance(u.func, ast.Name) and u.func.id == hp) for u in inner_uses):
+                            continue
                     # a helper of frontend/impl/_util.py that only inspects the function's signature
                     r = resolve_callee(p, par, f.module)
                     if r and r[0] == "func" and r[1].module.name.endswith("frontend.impl._util"):
@@ -321,7 +412,16 @@ def r3_r4(p, rep):
             if r and r[0] == "func" and r[1].module.name.endswith("frontend.impl._util") and r[1].name != "_make_iskwarg":
                 text = text + " :: " + " ".join(norm(st) for st in r[1].node.body)
                 extra_nodes += list(r[1].node.body)
-        if is_reduce:
+        pcs = predicate_classes(p)
+        if ikdef and isinstance(ikdef[0], ast.Call) and isinstance(ikdef[0].func, ast.Name) and ikdef[0].func.id in pcs and [norm(a) for a in ikdef[0].args] == [prm] and not ikdef[0].keywords:
+            res = pcs[ikdef[0].func.id]["reserved"]
+            if is_reduce:
+                ok = res == {"axis"}
+                rep.add("C15.R4", f"{f.qualname}:iskwarg", site, ok, "reduce-style adapter reserves `axis` (supplied by einx) and forwards all other keyword-only options" if ok else f"iskwarg = {text[:70]} reserves {sorted(res) if res is not None else '?'}, not exactly ['axis']")
+            else:
+                ok = res == set()
+                rep.add("C15.R4", f"{f.qualname}:iskwarg", site, ok, "every keyword-only parameter of the user function is an option" if ok else f"iskwarg = {text[:70]} reserves {sorted(res) if res is not None else '?'}: some keyword-only options of the user function are not recognised")
+        elif is_reduce:
             consts = {c.value for d in extra_nodes for c in ast.walk(d) if isinstance(c, ast.Constant) and isinstance(c.value, str) and not (isinstance(getattr(c, '_parent', None), ast.Expr))}
             ok = consts == {"axis"} and "_make_iskwarg(" in text
             rep.add("C15.R4", f"{f.qualname}:iskwarg", site, ok and ik is not None, "reduce-style adapter reserves `axis` (supplied by einx) and forwards all other keyword-only options" if ok else f"iskwarg = {text[:70]}")
